@@ -715,10 +715,14 @@ def _check_graph(spec, sim, out, prop):
         return vs
     seen_pe = set()
     for pe in mon.protocol_errors:
-        if (pe.rule, pe.what) in seen_pe:
+        fp = {"rule": pe.rule, "what": pe.what, "world": "W2"}
+        if pe.what == "completed_for_never_announced_id_with_errors":
+            fp["ancestor_failed_earlier"] = _ancestor_failed_earlier(spec, out["payloads"], pe)
+        key_ = (pe.rule, pe.what, fp.get("ancestor_failed_earlier"))
+        if key_ in seen_pe:
             continue
-        seen_pe.add((pe.rule, pe.what))
-        vs.append(Violation(prop, "protocol", {"rule": pe.rule, "what": pe.what, "world": "W2"},
+        seen_pe.add(key_)
+        vs.append(Violation(prop, "protocol", fp,
                             {"detail": pe.detail, "payloads": out["payloads"][-4:]}))
     if not out["ended"]:
         vs.append(Violation(prop, "no_termination", {"waiting": out["waiting"], "world": "W2"},
@@ -829,6 +833,42 @@ def _check_graph(spec, sim, out, prop):
                                 {"group": g.label}))
             return vs
     return vs
+
+
+def _ancestor_failed_earlier(spec, payloads, pe):
+    """W2 knows its graph: the never-announced group behind a bogus `completed` entry is a group
+    of the failing task named in the entry's error. Had an ancestor of it already been reported
+    as failed in an earlier payload (so that its subtree should have been gone)?"""
+    try:
+        msgs = [e.get("message", "") for e in (pe.detail["entry"].get("errors") or ())]
+        tids = {int(m[1:].split(" ")[0]) for m in msgs if m.startswith("T")}
+        bogus_id = pe.detail["id"]
+    except Exception:  # noqa: BLE001
+        return "?"
+    label_of = {}
+    failed_at = {}  # label -> payload index of its completed-with-errors entry
+    bogus_at = None
+    for k, p in enumerate(payloads):
+        for q in p.get("pending") or ():
+            label_of[q["id"]] = q.get("label")
+        for c in p.get("completed") or ():
+            if c["id"] == bogus_id and c["id"] not in label_of and bogus_at is None:
+                bogus_at = k
+            elif c.get("errors") and c["id"] in label_of:
+                failed_at.setdefault(label_of[c["id"]], k)
+    if bogus_at is None:
+        return "?"
+    announced = set(label_of.values())
+    for t in spec.all_tasks:
+        if t.tid not in tids:
+            continue
+        for g in t.groups:
+            if g.label in announced:
+                continue
+            for a in g.ancestors():
+                if a.label in failed_at and failed_at[a.label] < bogus_at:
+                    return True
+    return False
 
 
 def _task_keys(data):
